@@ -151,7 +151,9 @@ class YearsMonths(Sub):
     rule = "negation and integer scaling act component-wise on years/months and exactly on the native length; non-trivial: years and months of different sign"
 
     def strategy(self, ctx):
-        return st.fixed_dictionaries({"y": st.integers(-5, 5), "mo": st.integers(-20, 20), "a": td_slots, "n": scalars_i})
+        cancel = st.builds(lambda y, mo, eps, us, n: {"y": y, "mo": mo, "a": [-(365 * y + 30 * mo) + eps, 0, us], "n": n},
+                           st.integers(-5, 5), st.integers(-20, 20), st.sampled_from([0, 0, 1, -1]), st.sampled_from([0, 0, 1, -1]), scalars_i)
+        return st.one_of(st.fixed_dictionaries({"y": st.integers(-5, 5), "mo": st.integers(-20, 20), "a": td_slots, "n": scalars_i}), cancel)
 
     def check(self, case, ctx):
         y, mo, n = case["y"], case["mo"], case["n"]
